@@ -9,6 +9,7 @@ import (
 	"fmt"
 	"os"
 	"runtime"
+	"strings"
 	"sync"
 
 	"verif/internal/c10"
@@ -18,6 +19,7 @@ import (
 
 func main() {
 	only := flag.Int("case", -1, "run only this case index (debugging)")
+	from := flag.Int("from", -1, "run only the case indexes from this one on, without the L2 part (debugging; 300 = sweep family in the quick tier)")
 	verbose := flag.Bool("v", false, "print each violating case")
 	minimal := flag.Bool("minimal", false, "run only the hand-minimised witness schedules and print what they show")
 	r := evid.New("C10", "exploration")
@@ -33,7 +35,15 @@ func main() {
 		"fails the call or calls Stop. Fingerprint of a request = (start relation to creation/spend/tip, outpoint kind, " +
 		"arrival point relative to the batch, duplicate kind, fault that fired, answer kind); a case counts under its " +
 		"focus request, other requests are marked; non-trivial = the scanner made at least one chain callback and the " +
-		"case was decided" + c10.L2Rule)
+		"case was decided. Sweep family (appended to the case list; the first cases are seed-independent, on a chain with a constant seed): " +
+		"the served chain gets blocks that spend 2-4 outpoints nothing else spends in SEPARATE transactions in seeded order, interleaved with the block's " +
+		"own transactions (two or more outputs of one funding transaction swept by different transactions, outputs of earlier sweeping transactions swept " +
+		"again, a funding transaction or new watched outputs created in the same block); a case asks about the outpoints one such block spends (sometimes " +
+		"all but one) with 0-3 duplicate requests per outpoint (same / lower / higher start height, the sweep block as start block), all queued before the " +
+		"scanner starts (one batch), or joining the running batch at / just below their start height, or arriving for a later batch (idle, end-of-batch " +
+		"check, while the sweep block is being fetched), plus requests for outputs the sweep block creates, unrelated requests, the sweep block being the " +
+		"tip or arriving during / after the batch, and rarely a fault; same oracle; fingerprint op-kind = swept-<first|mid|last>-of-<n>-edup<number of " +
+		"duplicate requests for outpoints spent by earlier transactions of the block>" + c10.L2Rule)
 	c10.L2Describe(r)
 	r.Assume("chaingen blocks/filters are a faithful chain (cross-checked against btcd by the generator's own tests)")
 	r.Assume("btcd gcs filter matching has no false negatives for the script of a spent output")
@@ -60,6 +70,8 @@ func main() {
 	}
 	n := r.Pick(300, 30000)
 	nChains := r.Pick(12, 36)
+	nSweep := r.Pick(110, 6000) // random sweep cases, after the fixed ones
+	nSweepChains := r.Pick(6, 18)
 
 	// Chain pool: pure function of the seed.
 	pool := make([]*c10.ChainInfo, nChains)
@@ -75,7 +87,39 @@ func main() {
 			pool[i] = c10.BuildChain(i, r.Seed*1009+int64(i), tip)
 		}(i)
 	}
+	// Sweep family: its own chains (pure function of the seed) and the chain
+	// of the seed-independent scenarios.
+	sweepPool := make([]*c10.ChainInfo, nSweepChains)
+	for i := 0; i < nSweepChains; i++ {
+		wg.Add(1)
+		go func(i int) {
+			defer wg.Done()
+			sem <- struct{}{}
+			defer func() { <-sem }()
+			tip := 24 + (i*96)/(nSweepChains-1)
+			sweepPool[i] = c10.BuildSweepChain(i, r.Seed*1009+7777+int64(i), tip)
+		}(i)
+	}
+	var fixedChain *c10.ChainInfo
+	wg.Add(1)
+	go func() {
+		defer wg.Done()
+		fixedChain = c10.BuildSweepChain(0, c10.FixedSweepChainSeed, c10.FixedSweepChainTip)
+	}()
 	wg.Wait()
+	fixedSweep := c10.FixedSweepCases(fixedChain, n)
+	var sweepBlocks, sweepSib int
+	for _, ci := range append([]*c10.ChainInfo{fixedChain}, sweepPool...) {
+		sweepBlocks += len(ci.Sweeps)
+		for _, g := range ci.Sweeps {
+			if g.Siblings {
+				sweepSib++
+			}
+		}
+	}
+	r.Count("sweep_chains", int64(nSweepChains+1))
+	r.Count("sweep_blocks_in_chains", int64(sweepBlocks))
+	r.Count("sweep_blocks_sweeping_sibling_outputs", int64(sweepSib))
 	var blocks, spentLater, sameBlock, never int
 	for _, ci := range pool {
 		blocks += len(ci.Blocks)
@@ -100,23 +144,33 @@ func main() {
 		go func() {
 			defer ww.Done()
 			for i := range idx {
-				cs := c10.GenCase(r.Seed, i, pool)
-				out := c10.RunCase(cs, pool[cs.Chain])
-				report(r, out, *verbose)
+				switch {
+				case i < n:
+					cs := c10.GenCase(r.Seed, i, pool)
+					report(r, c10.RunCase(cs, pool[cs.Chain]), *verbose)
+				case i < n+len(fixedSweep):
+					report(r, c10.RunCase(fixedSweep[i-n], fixedChain), *verbose)
+				default:
+					cs := c10.GenSweepCase(r.Seed, i-n-len(fixedSweep), i, sweepPool)
+					report(r, c10.RunCase(cs, sweepPool[cs.Chain]), *verbose)
+				}
 			}
 		}()
 	}
-	for i := 0; i < n; i++ {
-		if *only >= 0 && i != *only {
+	for i := 0; i < n+len(fixedSweep)+nSweep; i++ {
+		if *only >= 0 && i != *only || i < *from {
 			continue
 		}
 		idx <- i
 	}
 	close(idx)
 	ww.Wait()
+	sweepMu.Lock()
+	r.Set("sweep_samples", sweepSamples)
+	sweepMu.Unlock()
 	r.Count("duplicate_delivery_warnings_logged", c10.DuplicateDeliveries())
 	floor := r.Pick(300, 2000)
-	if *only >= 0 {
+	if *only >= 0 || *from >= 0 {
 		floor = 1
 	} else {
 		// L2 part: ChainService.GetUtxo of the real client against live
@@ -177,7 +231,11 @@ func report(r *evid.Run, o *c10.Outcome, verbose bool) {
 		r.Count("callbacks_"+c10.CBName[k], c)
 	}
 	r.Count("fault_"+o.Fault, 1)
-	r.Sample(compact(o))
+	if sp := o.Spec.Sweep; sp != nil {
+		reportSweep(r, o, sp)
+	} else {
+		r.Sample(compact(o))
+	}
 	seen := map[string]bool{}
 	for _, v := range o.Violations {
 		if seen[v.Sig] {
@@ -190,6 +248,82 @@ func report(r *evid.Run, o *c10.Outcome, verbose bool) {
 		r.Violation(v.Sig, v.What, o)
 	}
 }
+
+// reportSweep records what a case of the sweep family exercised.
+func reportSweep(r *evid.Run, o *c10.Outcome, sp *c10.SweepPlan) {
+	r.Count("sweep_cases", 1)
+	if sp.Fixed != "" {
+		r.Count("sweep_cases_fixed", 1)
+		if o.Nontrivial {
+			r.Mark("sweep-fixed:" + sp.Fixed)
+		}
+	}
+	r.Count(fmt.Sprintf("sweep_cases_%d_watched_spends_in_one_block", sp.Watched), 1)
+	r.Count("sweep_cases_mode_"+sp.Mode, 1)
+	if sp.Siblings {
+		r.Count("sweep_cases_block_sweeps_sibling_outputs", 1)
+	}
+	if sp.StartBlock {
+		r.Count("sweep_cases_request_starts_at_sweep_block", 1)
+	}
+	if sp.MadeReqs > 0 {
+		r.Count("sweep_cases_with_request_for_output_created_in_sweep_block", 1)
+	}
+	if sp.DupEarlier {
+		r.Count("sweep_cases_duplicated_outpoint_spent_before_another_watched", 1)
+	}
+	// Measured: requests about the block's spends that were answered with a
+	// spend in that block, per position of the spend among the watched ones;
+	// and cases where a duplicated outpoint AND an outpoint spent by a later
+	// transaction were both answered so with all of them queued before start.
+	dupAnswered, laterAnswered, allPre := 0, 0, true
+	for _, q := range o.Reqs {
+		role := q.Spec.Role
+		if role != "focus" && role != "sweep" && role != "sweep-dup" {
+			continue
+		}
+		if !q.Enqueued {
+			allPre = false
+			continue
+		}
+		if q.Arrival != "pre-start" {
+			allPre = false
+		}
+		if role == "sweep-dup" {
+			r.Count("sweep_duplicate_requests", 1)
+		} else {
+			r.Count("sweep_main_requests", 1)
+		}
+		if q.First != nil && q.First.Kind == c10.KSpent && q.First.SpendHeight == uint32(sp.Height) {
+			r.Count("sweep_answers_spent_in_sweep_block", 1)
+			if role == "sweep-dup" {
+				dupAnswered++
+			}
+			if !strings.HasPrefix(q.Spec.Shape, "swept-first") {
+				laterAnswered++
+				r.Count("sweep_answers_spent_by_a_later_tx_of_sweep_block", 1)
+			}
+		}
+	}
+	if sp.DupEarlier && dupAnswered > 0 && laterAnswered > 0 {
+		r.Count("sweep_cases_dup_and_later_spend_both_reported", 1)
+		if allPre {
+			r.Count("sweep_cases_dup_and_later_spend_both_reported_one_batch", 1)
+		}
+	}
+	s := compact(o).(map[string]any)
+	s["sweep"] = sp
+	sweepMu.Lock()
+	if len(sweepSamples) < 3 && (sp.Fixed != "" || len(sweepSamples) < 1) {
+		sweepSamples = append(sweepSamples, s)
+	}
+	sweepMu.Unlock()
+}
+
+var (
+	sweepMu      sync.Mutex
+	sweepSamples []any
+)
 
 // compact keeps a sample small.
 func compact(o *c10.Outcome) any {
